@@ -37,6 +37,9 @@ structure DState where
   codecBad : Nat := 0
   /-- F13 precondition: the stability threshold was RAISED while the anchor's ingestion was paused -/
   thrRaisedWhilePaused : Bool := false
+  /-- how many iterations of the loop of `insert_next_block_headers` fit under the instruction
+      threshold in the next heartbeat (announced by the harness with `c hdrslots <n>`) -/
+  hdrSlots : Nat := 1000000000
 
 def statusCode : Watchdog.Status → Nat
   | .notEnoughData => 0 | .ok => 1 | .ahead => 2 | .behind => 3
@@ -63,7 +66,8 @@ def envOf (d : DState) : Env :=
     bound := testnetBound
     syncedThreshold := Btc.Gen.syncedThreshold
     maxHeaders := Btc.Gen.maxBlockHeadersPerResponse
-    numTransactions := Btc.Gen.numTransactions }
+    numTransactions := Btc.Gen.numTransactions
+    headerSlots := d.hdrSlots }
 
 def parseHeaderDec (raw : String) (s : String) : Option NextHeader :=
   if s == "G" then none
@@ -184,6 +188,7 @@ def endpointCall (d : DState) (s : State) (ep : String) (reqNet : Tree.Net) (ava
 def stepCanister (d : DState) (ws : List String) : DState × String :=
   match ws, d.st with
   | ["time", t], _ => ({ d with now := t.toNat! }, "-")
+  | ["hdrslots", n], _ => ({ d with hdrSlots := n.toNat! }, "-")
   | ["setfees", csv], some s => ({ d with st := some { s with fees := parseFees csv } }, "-")
   | ["hb", budget], some s =>
     let finish (s' : State) (o : String) : DState × String :=
